@@ -86,8 +86,16 @@ def write_xml(folder, classes, index=True, broken=(), missing_file=(), structs=(
         idx += '<compound refid="%s" kind="%s"><name>%s</name></compound>' % (refid, ckind, cpp)
         if cpp in missing_file:
             continue
-        body = '<?xml version="1.0" encoding="UTF-8"?>\n<doxygen><compounddef id="%s" kind="%s"><compoundname>%s</compoundname>' \
-               '<sectiondef kind="public-func">%s</sectiondef></compounddef></doxygen>' % (refid, ckind, cpp, ''.join(member_xml(m) for m in members))
+        # members may name their section (a Doxygen @name group is a sectiondef of kind "user-defined")
+        sects = []
+        for m in members:
+            k = m.get('sect', 'public-func')
+            if k not in [x[0] for x in sects]:
+                sects.append((k, []))
+            [x for x in sects if x[0] == k][0][1].append(m)
+        body = '<?xml version="1.0" encoding="UTF-8"?>\n<doxygen><compounddef id="%s" kind="%s"><compoundname>%s</compoundname>%s</compounddef></doxygen>' \
+               % (refid, ckind, cpp, ''.join('<sectiondef kind="%s">%s</sectiondef>' % (k, ''.join(member_xml(m) for m in ms)) for k, ms in sects) or
+                  '<sectiondef kind="public-func"></sectiondef>')
         if cpp in broken:
             body = body[:len(body) // 2]
         with open(os.path.join(folder, refid + '.xml'), 'w', encoding='utf-8') as f:
@@ -198,6 +206,10 @@ def texts(maxlen):
         for t in itertools.product(CHARS, repeat=L):
             out.append(''.join(t))
     return out
+
+
+LONG_TEXTS = ['a' + '"' * 1500, 'ab' + 'é' * 700, 'abc' + '\n' * 1500 + 'z', 'x' * 2047 + '"' + 'y' * 2047 + '\\' + 'z',
+              'x' * 2046 + '\\' * 3 + 'w' * 3000, '%' * 2500, 'q' + '\t\x7f' * 1200, 'é' * 1025 + '"']
 
 
 def check_texts(case):
@@ -344,6 +356,8 @@ def check_matching(case):
                 members.append(D.method(single(I), name, args))
             if kind != 'absent':
                 m = {'name': name, 'params': xml_params}
+                if (name, len(params)) == ('ov', 0) or name == 'swap' and params[0][1] == 'value':
+                    m['sect'] = 'user-defined'      # overloads told apart by their parameter names, in another section
                 if kind == 'full':
                     m.update(doc(mark, pdocs={n: 'PD-%s-%s' % (mark, n) for _, n, _ in xml_params}))
                 elif kind == 'brief':
@@ -372,7 +386,8 @@ def check_matching(case):
                            D.cls('Broken', [D.method(single(I), 'plain', [arg(I, 'a')])])])]
         text = D.render(mod)
         xml = os.path.join(wd, 'xml')
-        write_xml(xml, {'gt::Foo': xmlm, 'gt::Sfoo': sxml, 'gt::NoFile': [], 'gt::Broken': [{'name': 'plain', 'params': [('int', 'a', None)], 'brief': 'BRIEF-X'}]},
+        write_xml(xml, {'outer::gt::NotIndexed': [dict({'name': 'plain', 'params': [('int', 'a', None)]}, **doc('K70K'))],
+                        'gt::Foo': xmlm, 'gt::Sfoo': sxml, 'gt::NoFile': [], 'gt::Broken': [{'name': 'plain', 'params': [('int', 'a', None)], 'brief': 'BRIEF-X'}]},
                   broken=('gt::Broken',), missing_file=('gt::NoFile',), structs=('gt::Sfoo',))
         variants = {'full': xml}
         noidx = os.path.join(wd, 'noindex')
@@ -464,7 +479,7 @@ def replay(case):
 
 
 def run(ctx):
-    tx = texts(3 if ctx.thorough else 2)
+    tx = texts(3 if ctx.thorough else 2) + LONG_TEXTS
     per = 60
     cases = [{'mode': 'texts', 'texts': tx[i:i + per], 'compile': True} for i in range(0, len(tx), per)]
     res = ctx.map(check_texts, cases, chunksize=1)
